@@ -115,7 +115,7 @@ def norm(ctx, fn, expr, at_node=None, depth=2, pol=True):
     while isinstance(e, ast.UnaryOp) and isinstance(e.op, ast.Not):
         e, pol = e.operand, not pol
     if at_node is not None:
-        e = g.expand(e, at_node)
+        e = _expand_deep(g, e, at_node)
     inl = _inline_pred(ctx, fn, e, depth)
     if inl is not None:
         f2, e2 = inl
@@ -125,6 +125,19 @@ def norm(ctx, fn, expr, at_node=None, depth=2, pol=True):
         # canon unwrapped len()/bool(): normalise the inner expression again
         return norm(ctx, fn, e3, at_node, depth, pol2)
     return render(ctx, fn, e3, depth), pol2
+
+
+def _expand_deep(g, e, at_node):
+    """Alias expansion inside comparisons / arithmetic (new parent nodes, original leaves)."""
+    if isinstance(e, ast.Name):
+        return g.expand(e, at_node)
+    if isinstance(e, ast.Compare):
+        return ast.Compare(left=_expand_deep(g, e.left, at_node), ops=e.ops, comparators=[_expand_deep(g, c, at_node) for c in e.comparators])
+    if isinstance(e, ast.BinOp):
+        return ast.BinOp(left=_expand_deep(g, e.left, at_node), op=e.op, right=_expand_deep(g, e.right, at_node))
+    if isinstance(e, ast.UnaryOp):
+        return ast.UnaryOp(op=e.op, operand=_expand_deep(g, e.operand, at_node))
+    return e
 
 
 def _inline_pred(ctx, fn, e, depth):
@@ -157,7 +170,7 @@ def guard_forms(ctx, fn, cfg_node, kinds=ALL_KINDS, kill=True):
     out = set()
     for key, pol, e in g.at(cfg_node):
         # find a test node carrying this condition to expand aliases at the right place
-        tnode = _test_node_for(ctx, fn, e)
+        tnode = g.origin[key][0] if key in g.origin else _test_node_for(ctx, fn, e)
         try:
             form, p = norm(ctx, fn, e, tnode, pol=pol)
         except RecursionError:
